@@ -588,7 +588,8 @@ def main():
             elif r['stderr']:
                 bad = 'stderr-not-empty'
             else:
-                for line in r['stdout'].split('\n')[:-1] if r['stdout'].endswith('\n') else r['stdout'].split('\n'):
+                # no output at all is a legitimate result (a file without problems); otherwise every line is a tag line
+                for line in ([] if r['stdout'] == '' else r['stdout'].split('\n')[:-1] if r['stdout'].endswith('\n') else r['stdout'].split('\n')):
                     if not LINE_RE.match(line) or any(unicodedata.category(c) in ('Cc', 'Cs') for c in line):
                         bad = 'line-grammar'
                         break
